@@ -2,7 +2,7 @@
 """tools/automut.py <worker> <nworkers> <count> [seed] — syntactic mutation run (sensitivity at scale).
 
 Samples single-token mutants of the library's logic (relational boundary, ==/!=, &&/||, integer constant +-1,
-+/- swap), keeps those that compile AND pass the repository's own test suite, and runs the quick checks whose
++/- swap, a guard forced false / true, a deleted assignment), keeps those that compile AND pass the repository's own test suite, and runs the quick checks whose
 coverage profile (/tmp/cov/*.out, produced with -coverpkg) touches the mutated line, in private copies of /repo
 and /verif. Survivors (no check reports a VIOLATION) are written to notes/automut_survivors.jsonl for triage:
 a survivor is either an equivalent mutant, a change outside every listed property, or a weakness of a check.
@@ -77,6 +77,13 @@ def candidates(repo):
                     if code[:m.start()].count('"') % 2 == 1:
                         continue
                     out.append((f, i, m.start(), m.end(), rep))
+            # dropped special case / dropped update: a guard that never fires, an arm that always fires, a deleted assignment
+            mm = re.match(r'^(\s*(?:\} else )?if )(.+)( \{\s*)$', code)
+            if mm and ';' not in mm.group(2):
+                out.append((f, i, 0, len(line), mm.group(1) + 'false && (' + mm.group(2) + ')' + mm.group(3)))
+                out.append((f, i, 0, len(line), mm.group(1) + 'true || (' + mm.group(2) + ')' + mm.group(3)))
+            if re.match(r'^\s*[\w\.\[\]]+ (=|\+=|-=) .+$', code) or re.match(r'^\s*[\w\.\[\]]+(\+\+|--)\s*$', code):
+                out.append((f, i, 0, len(line), ''))
             for m in NUM.finditer(code):
                 if code[:m.start()].count('"') % 2 == 1:
                     continue
